@@ -23,6 +23,7 @@ type genState struct {
 	noRej   bool // avoid batches that are rejected inside the transaction (memstore has no rollback)
 	words   []string
 	old     map[string][]Val // values stored earlier at a path
+	recent  []uuid.UUID      // ids written by the last accepted batch
 	dim     int
 	vecMetric string
 }
@@ -121,10 +122,12 @@ func (g *genState) schemaC04(idx int) schemaSpec {
 		case 1:
 			q = quantSpec{kind: 1, thr: []float32{0.5, 1.5, -0.5, 0}[r.IntN(4)], metric: []string{"hamming", "jaccard"}[r.IntN(2)]}
 		case 2:
-			q = quantSpec{kind: 2, trigger: r.IntN(9), metric: []string{"hamming", "jaccard"}[r.IntN(2)]}
+			// the first batch has 3..7 points: the threshold is usually learned by a LATER batch, so that points
+			// written before and after training coexist (and get updated / deleted afterwards)
+			q = quantSpec{kind: 2, trigger: []int{0, 1, 3, 5, 6, 7, 8, 9, 10, 12}[r.IntN(10)], metric: []string{"hamming", "jaccard"}[r.IntN(2)]}
 		case 3:
 			dim = []int{2, 4, 8}[r.IntN(3)]
-			q = quantSpec{kind: 3, ncent: 2 + r.IntN(3), nsub: 2, trigger: 4 + r.IntN(5)}
+			q = quantSpec{kind: 3, ncent: 2 + r.IntN(3), nsub: 2, trigger: 4 + r.IntN(8)}
 		}
 	}
 	g.dim = dim
@@ -142,10 +145,10 @@ func (g *genState) schemaC03(idx int) schemaSpec {
 	case 2:
 		q = quantSpec{kind: 1, thr: []float32{0.5, 1.5, -0.5, 0}[r.IntN(4)], metric: []string{"hamming", "jaccard"}[r.IntN(2)]}
 	case 3:
-		q = quantSpec{kind: 2, trigger: r.IntN(9), metric: []string{"hamming", "jaccard"}[r.IntN(2)]}
+		q = quantSpec{kind: 2, trigger: []int{0, 1, 3, 5, 6, 7, 8, 9, 10, 12}[r.IntN(10)], metric: []string{"hamming", "jaccard"}[r.IntN(2)]}
 	case 4:
 		dim = []int{2, 4, 8}[r.IntN(3)]
-		q = quantSpec{kind: 3, ncent: 2 + r.IntN(3), nsub: 2, trigger: 4 + r.IntN(5)}
+		q = quantSpec{kind: 3, ncent: 2 + r.IntN(3), nsub: 2, trigger: 4 + r.IntN(8)}
 	}
 	g.dim = dim
 	g.vecMetric = m
@@ -177,7 +180,112 @@ func (g *genState) genStr() string {
 	}
 	return g.pick(strPoolBase)
 }
+// textVariant rewrites a stored text: same words in another order, the same distinct words with other
+// multiplicities (same length or not), one word swapped, a word dropped or added.
+func (g *genState) textVariant(path string) (string, bool) {
+	st := g.storedAt(path)
+	var cands []string
+	for _, v := range st {
+		if v.K == kStr && len(strings.Fields(v.S)) >= 2 {
+			cands = append(cands, v.S)
+		}
+	}
+	if len(cands) == 0 {
+		return "", false
+	}
+	return g.variantOf(cands[g.r.IntN(len(cands))]), true
+}
+
+func (g *genState) variantOf(text string) string {
+	ws := strings.Fields(text)
+	if len(ws) == 0 {
+		return text
+	}
+	distinct := []string{}
+	seen := map[string]bool{}
+	for _, w := range ws {
+		if !seen[w] {
+			seen[w] = true
+			distinct = append(distinct, w)
+		}
+	}
+	switch g.r.IntN(5) {
+	case 0: // same multiset, other order
+		g.r.Shuffle(len(ws), func(i, j int) { ws[i], ws[j] = ws[j], ws[i] })
+	case 1, 2: // same distinct words, same number of tokens, other multiplicities
+		out := append([]string{}, distinct...)
+		for len(out) < len(ws) {
+			out = append(out, distinct[g.r.IntN(len(distinct))])
+		}
+		if len(out) == len(distinct) && len(distinct) >= 2 && len(ws) > len(distinct) {
+			out = append(out, distinct[0])
+		}
+		g.r.Shuffle(len(out), func(i, j int) { out[i], out[j] = out[j], out[i] })
+		ws = out
+	case 3: // one word replaced
+		ws[g.r.IntN(len(ws))] = g.pick(g.words)
+	default: // same distinct words, other length
+		ws = append(ws, distinct[g.r.IntN(len(distinct))])
+	}
+	return strings.Join(ws, " ")
+}
+
+// rewriteOwn: an update document that rewrites the point's OWN current values in a "nearly the same" way:
+// texts with the same words in other multiplicities, vectors moved slightly, tags reordered / one changed.
+func (g *genState) rewriteOwn(id uuid.UUID, d *Val) {
+	old, ok := g.sent[id]
+	if !ok {
+		return
+	}
+	for _, ix := range g.schema {
+		if strings.Contains(ix.path, ".") {
+			continue
+		}
+		cur, ok := old.get(ix.path)
+		own := (g.profile == "c05" && ix.kind == ixText) || (g.profile == "c04" && ix.kind == ixFlat) || (g.profile == "c03" && ix.kind == ixVamana)
+		if !ok || (g.r.IntN(3) != 0 && !(own && g.r.IntN(3) != 0)) {
+			continue
+		}
+		switch ix.kind {
+		case ixText:
+			if cur.K == kStr {
+				setPath(d, ix.path, vStr(g.variantOf(cur.S)))
+			}
+		case ixStrArr:
+			if cur.K == kArr && len(cur.A) > 0 {
+				a := append([]Val{}, cur.A...)
+				g.r.Shuffle(len(a), func(i, j int) { a[i], a[j] = a[j], a[i] })
+				if g.r.IntN(2) == 0 {
+					a[0] = vStr(g.pick(tagPool))
+				}
+				setPath(d, ix.path, Val{K: kArr, A: a})
+			}
+		case ixStr:
+			if cur.K == kStr && cur.S != "" {
+				setPath(d, ix.path, vStr([]string{strings.ToUpper(cur.S), strings.ToLower(cur.S), cur.S + "a", cur.S}[g.r.IntN(4)]))
+			}
+		case ixFlat, ixVamana:
+			if cur.K == kArr && len(cur.A) == ix.dim {
+				a := append([]Val{}, cur.A...)
+				j := g.r.IntN(len(a))
+				a[j] = vF32(math.Float32frombits(uint32(a[j].Bits)) + float32(g.r.IntN(3)-1))
+				setPath(d, ix.path, Val{K: kArr, A: a})
+			}
+		}
+	}
+	sortDoc(d)
+}
+
 func (g *genState) genText() string {
+	if g.r.IntN(3) == 0 {
+		for _, ix := range g.schema {
+			if ix.kind == ixText {
+				if t, ok := g.textVariant(ix.path); ok {
+					return t
+				}
+			}
+		}
+	}
 	n := g.r.IntN(9)
 	if g.r.IntN(10) == 0 {
 		n = 0
@@ -185,6 +293,9 @@ func (g *genState) genText() string {
 	ws := make([]string, n)
 	for i := range ws {
 		ws[i] = g.pick(g.words)
+		if i > 0 && g.r.IntN(4) == 0 {
+			ws[i] = ws[g.r.IntN(i)] // repeated words: term frequencies above one
+		}
 	}
 	switch g.r.IntN(12) {
 	case 0:
@@ -433,7 +544,11 @@ func (g *genState) genBatch(step int) batchSpec {
 				continue
 			}
 			used[id] = true
-			b.points = append(b.points, pointSpec{id: id, doc: g.genDoc(true, !g.noRej)})
+			doc := g.genDoc(true, !g.noRej)
+			if r.IntN(2) == 0 {
+				g.rewriteOwn(id, &doc)
+			}
+			b.points = append(b.points, pointSpec{id: id, doc: doc})
 		}
 		// the same id twice in one update batch: only where the point store alone is judged (C01).
 		// The index pipelines process the two versions concurrently (text analysis workers), so
@@ -475,6 +590,10 @@ func (g *genState) genBatch(step int) batchSpec {
 
 // noteApplied updates the bookkeeping after a batch that the code accepted.
 func (g *genState) noteApplied(b batchSpec, okIds []uuid.UUID) {
+	g.recent = g.recent[:0]
+	for _, p := range b.points {
+		g.recent = append(g.recent, p.id)
+	}
 	switch b.kind {
 	case 0:
 		for _, p := range b.points {
